@@ -538,7 +538,12 @@ func rulePropPayload(c *Ctx, r *R) {
 		case *ssa.TypeAssert:
 			return payloadOK(x.X, depth+1, seen)
 		case *ssa.Extract:
+			if call, ok := x.Tuple.(*ssa.Call); ok {
+				return payloadOfCall(call, x.Index, payloadOK, depth, seen)
+			}
 			return payloadOK(x.Tuple, depth+1, seen)
+		case *ssa.Call:
+			return payloadOfCall(x, 0, payloadOK, depth, seen)
 		}
 		return false, fmt.Sprintf("value of kind %T", v)
 	}
@@ -1041,4 +1046,34 @@ func ruleLengthRepr(c *Ctx, r *R) {
 		}
 		r.check(got == want, "literal:"+path, c.Pos(o.Props["length"].Pos), got, fmt.Sprintf("%s.length has a %s payload in the literal heap; readers assert .(%s)", path, got, want))
 	}
+}
+
+// payloadOfCall: the payload is what a function of the module (or a closure) returns as its idx-th result: every value it
+// returns there must be a legal payload.
+func payloadOfCall(call *ssa.Call, idx int, payloadOK func(ssa.Value, int, map[ssa.Value]bool) (bool, string), depth int, seen map[ssa.Value]bool) (bool, string) {
+	callee := closureOf(&call.Call)
+	if callee == nil {
+		callee = call.Call.StaticCallee()
+	}
+	if callee == nil || len(callee.Blocks) == 0 {
+		return false, "result of a call that is not statically known"
+	}
+	n := 0
+	for _, b := range callee.Blocks {
+		ret, ok := b.Instrs[len(b.Instrs)-1].(*ssa.Return)
+		if !ok {
+			continue
+		}
+		if idx >= len(ret.Results) {
+			return false, "arity"
+		}
+		n++
+		if ok, why := payloadOK(ret.Results[idx], depth+1, seen); !ok {
+			return false, "returned by " + ssaFuncName(callee) + ": " + why
+		}
+	}
+	if n == 0 {
+		return false, "result of " + ssaFuncName(callee) + ", which never returns"
+	}
+	return true, ""
 }
